@@ -129,6 +129,11 @@ def Valid (g : Geo) : Pool → List Op → Prop
   | p, .alloc :: os => Valid g (step g p .alloc).1 os
   | p, .free b :: os => b ∈ p.live ∧ Valid g (step g p (.free b)).1 os
 
+instance decValid (g : Geo) : ∀ (p : Pool) (ops : List Op), Decidable (Valid g p ops)
+  | _, [] => isTrue trivial
+  | p, .alloc :: os => decValid g (step g p .alloc).1 os
+  | p, .free b :: os => @instDecidableAnd _ _ inferInstance (decValid g (step g p (.free b)).1 os)
+
 /-! ## MallocAllocator<T>, AlignedAllocator<T,A> -/
 
 /-- `allocate(n)`: the `n > max_size()` test (if the source has it), then `malloc(n*sizeof(T))`, NULL → bad_alloc.
@@ -178,6 +183,35 @@ def dbgDeallocate (page : Nat) : List AInfo → Nat → Option (List AInfo)
     if it.pagePtr = dbgLookupKey ptr page then
       (if ptr = it.ptr then some rest else none)
     else (dbgDeallocate page rest ptr).map (it :: ·)
+
+/-- histories of the allocation manager; the answer of `mmap` is part of the operation (nondeterministic OS) -/
+inductive DOp where
+  | alloc (n : Nat) (mm : Option Nat)
+  | free (ptr : Nat)
+  deriving Repr
+
+/-- `none` = the manager called `allocation_error` (abort) -/
+def dbgStep (sz page : Nat) (l : List AInfo) : DOp → Option (List AInfo)
+  | .alloc n mm => match dbgAllocate sz page n (fun _ => mm) l with
+    | .ok r => some r.2
+    | .error _ => some l
+  | .free ptr => dbgDeallocate page l ptr
+
+def dbgRun (sz page : Nat) : List AInfo → List DOp → Option (List AInfo)
+  | l, [] => some l
+  | l, o :: os => match dbgStep sz page l o with
+    | none => none
+    | some l' => dbgRun sz page l' os
+
+/-- valid history: `mmap` returns page-aligned addresses of mappings that are not in use, and only pointers of live
+    blocks are given back -/
+def DValid (sz page : Nat) : List AInfo → List DOp → Prop
+  | _, [] => True
+  | l, .alloc n mm :: os =>
+    (∀ a, mm = some a → page ∣ a ∧ ∀ it ∈ l, it.pagePtr ≠ a) ∧
+    ∀ l', dbgStep sz page l (.alloc n mm) = some l' → DValid sz page l' os
+  | l, .free ptr :: os =>
+    (∃ it ∈ l, it.ptr = ptr) ∧ ∀ l', dbgStep sz page l (.free ptr) = some l' → DValid sz page l' os
 
 /-! ## debugalign.hh -/
 
